@@ -225,6 +225,20 @@ def check_der(ctx, oid="C01.6"):
     evd2 = ctx.evaluator(opaque={"bits.pem.parse_asn1"})
     gotd = evd2.run(fdd).value()
     wantd = (tm.b2i(path(0, 2, 0, 2), "big"), tm.b2i(path(0, 2, 1, 2), "big"))
+    # reader o writer: the ASN.1 parser inlined, on the layout the encoder emits, for arbitrary contents of fixed lengths
+    evr = ctx.evaluator(max_depth=12)
+    pairs = [(lr, ls) for lr in range(1, 34) for ls in range(1, 34)] if ctx.thorough else [(32, 32), (33, 32), (32, 33), (33, 33), (1, 1), (31, 20), (20, 31), (1, 33)]
+    badp = []
+    for lr, ls in pairs:
+        Rb, Sb = tm.sized("R", lr), tm.sized("S", ls)
+        der = tm.cat([b"\x30", bytes([lr + ls + 4]), b"\x02", bytes([lr]), Rb, b"\x02", bytes([ls]), Sb])
+        k, v = rules.outcome(evr.run(fdd, {fdd.params()[0]: der}))
+        okp = k == "return" and isinstance(v, (list, tuple)) and len(v) == 2 and tm.veq(v[0], tm.b2i(Rb, "big")) and tm.veq(v[1], tm.b2i(Sb, "big"))
+        if not okp:
+            badp.append((lr, ls, k, tm.show(v)[:120]))
+    R.check(oid, "ROUND-TRIP", fdd, "der_decode_sig(30 len 02 lr R 02 ls S) = (int(R), int(S)) for %d (lr, ls) pairs, any contents" % len(pairs), not badp,
+            "der_decode_sig does not invert the encoder's layout for integer lengths %s: %s" % (badp[0][:2] if badp else "", badp[0][2:] if badp else ""),
+            example=("r of %d bytes and s of %d bytes" % badp[0][:2]) if badp else None)
     R.check(oid, "PROV", fdd, "decode: r from the first INTEGER, s from the second",
             tm.veq(tm.freeze(tuple(gotd) if isinstance(gotd, (list, tuple)) else gotd), tm.freeze(wantd)),
             "der_decode_sig: %s" % tm.first_diff(gotd, wantd))
